@@ -77,6 +77,37 @@ Alphabet / bound / oracle per sub-check (all complete enumerations of the stated
            taken before the call.  A form the library rejects (raises) is outside the alphabet: counted
            (form-rejected-by-the-library:*), never an alarm - unless the library itself uses the form (numpy integer
            indices handed to projection / project, tuples of Python integers, deepcopy and dill of the objects).
+ hyperbola whole HYPERBOLAS n = (x+1)(y+1) of the hyperbolic pairing, chosen by the factor structure of n relative to every table
+           / threshold T an implementation could hard-code (T = 16, 100, 128, 256, 541 = 100th prime, 1000, 1024, 4096, 7919
+           = 1000th prime, 1e4, 2^15, 2^16, 1e5; thorough also 32, 64, 512, 2048, 8192, 2^14, 2^17, 2^18, 1e6, 2^20): with
+           k < l <= T < p < q < r consecutive primes around T, n = p, l, l^2, k*l, l*p, p*q, p^2, q^2, p*r, 2p, 2pq, 6p^2, 3pq,
+           l*p*q, p^2 q, p q^2, p*q*r, p^3, p^2 q^2, T^2, T*p (n <= 2^34, thorough 2^40) and, for T <= 4096, the neighbours
+           +-1, +-2 of p^2, p*q, T^2; plus highly composite n (720 .. 6983776800, factorials, primorials, powers of 2, 3, 6).
+           For each n: the lattice points (a-1, n/a-1) over ALL divisors a get exactly the index block [D(n-1), D(n)) (D = own
+           divisor summatory function, plain loop), every index of the block projects back onto the hyperbola and onto its
+           point (n <= 2^24 or <= 64 divisors: all; otherwise first / last 16 and 16 evenly spaced, counted), the recursive
+           3-d pairing agrees on (projection2d(a-1), n/a-1), and PairingToZd (zero omitted / kept) round-trips both ways on
+           the signed states folded onto those points.
+ zd-large  PairingToZd.pair / project of EVERY pairing class in d = 2, 3, 4 (Cantor d = 2; Pepis-Kalmar, hyperbolic d = 2, 3) on
+           signed states with coordinates M-1, M, M+1 for M = 2^15, 2^16, 2^20, 2^21, 2^31, 2^32, 1e8 (the library's limit),
+           2^62, 2^63, 2^64 (Python integers: accepted by the unchanged tree), both signs; one large coordinate on each axis,
+           two, all (also exact ties and zeros elsewhere); zero omitted / kept.  Oracles: the closed form of the published
+           pairing evaluated here in plain Python integers (hyperbolic: the index lies in the block of its hyperbola),
+           project(pair(s)) == s, project(closed-form index) == s, pair(project(z)) == z for the two neighbouring indices, the
+           answer is an int / numpy integer, >= 0; argument forms list / keyword / int64 array / int32 array / tuples of numpy
+           integers (numpy forms only where 8*(index+1) fits the dtype: fixed-width arithmetic overflows in the unchanged tree
+           too - counted) and project(np.int64) give the same; arguments not modified; two objects (zero omitted / kept) used
+           alternately differ by one; an object built with another pairing / dimension and RE-PARAMETRISED through its public
+           attributes (dimension, n_pairing) answers like a fresh one.  Pepis-Kalmar: only the first axis large (index
+           2^y (2x+1)); hyperbolic: hyperbolas up to 2^34 (larger: counted as skipped).  Coordinates above 1e8 exceed the
+           largest grid the library accepts (the unchanged tree is exact there, Python integers): their keys end with
+           `beyond-1e8-points-per-axis` so that a triage can tell them from the regime the statement names.
+ lazy-big  lazy_indices_product with sizes beyond 8-bit / 16-bit / small-integer thresholds, complete ([257], [300,3], [3,300],
+           [2,257,2], [70000], [1,65537], [256,257]) and, for sizes of the largest grids ([1e8,3], [3,1e8], [1e8]*3,
+           [2^32+1,2^32,5], [7,2^63,3,2]), the first 3000 (thorough 20000) tuples against mixed-radix digits computed here.
+ z1d-large PairingToZ1d on intervals [-L,R], L, R in {0, 3, 2^15, 2^16+1, 1e8} (max > 3), zero omitted / kept: the indices in the
+           windows [0,8), around the switch 2 min(L,R), [n-8,n) and the states +-1, +-2, around +-min(L,R), the ends: round trips
+           both ways, images inside the interval / index range and pairwise distinct, Python int and numpy.int64 arguments.
 
 Exclusions (statement silent / not constructible): the interval [0,0] with zero omitted (no state); n-d grids with an axis of a
 single point; float coordinates / indices (the statement is about integers; some pairings reject them); sizes modified by
@@ -99,7 +130,8 @@ from mc import core
 PID = "C14"
 LEVEL = "model_checking"
 RULE = (
-    "complete ranges of indices and coordinate tuples, complete products of interval shapes / size tuples / grid shapes / "
+    "whole hyperbolas by factor structure around every plausible table threshold, signed states with coordinates up to 2^64 "
+    "against closed forms, complete ranges of indices and coordinate tuples, complete products of interval shapes / size tuples / grid shapes / "
     "pairings / boundaries / log bounds, BFS over call orders of the stateful 1-d projection (with a second object and "
     "three kinds of copies as events), every legal argument form of every entry point against the usual form, every word of 2-3 scripted draws of the real inversion sampler over a menu of targets, every word "
     "of 2-3 public operations on a re-used Domain; a case is non-trivial when it compares at least one round trip / "
@@ -115,6 +147,11 @@ ASSUMPTIONS = [
     "whose origin is its first / last point, and the unchanged code enumerates it correctly",
     "forms: an argument form the library rejects is outside the alphabet (counted); integer-valued forms only, values small "
     "enough that fixed-width numpy integers do not overflow",
+    "zd-large: the five pairing classes are the published functions of their names (Rosenberg-Strong r_d, Szudzik's elegant "
+    "pairing nested from the left, Cantor, Pepis-Kalmar 2^y(2x+1)-1 nested): their closed forms in Python integers are the "
+    "reference; the hyperbolic pairing is judged by round trips and by the block [D(n-1), D(n)) of its hyperbola only",
+    "hyperbola: blocks with more than 64 points and n > 2^24 are projected on a stated subset of 48 indices (counted); the "
+    "pairing side is always complete over all divisors",
     "inversion: the bound of the sampler's log (1e6 states in the library) is scaled down through its attribute "
     "_max_storage (skipped and counted if the attribute does not exist); thorough has one case with the bound untouched; "
     "scaled-down bounds include values on both sides of the interpreter's small-integer range (256 / 257, 300) and 65536",
@@ -363,6 +400,12 @@ def cases(tier):
                         + ([32, 64, 512, 2048, 8192, 2 ** 14, 2 ** 17, 2 ** 18, 10 ** 6, 2 ** 20] if thorough else []))):
         out.append({"sub": "hyperbola", "T": T, "cap": cap})
     out.append({"sub": "hyperbola", "T": None, "cap": cap})
+    # intervals with up to 1e8 points on a side (the library's limit), 16-bit thresholds, one-sided
+    big1 = [0, 3, 2 ** 15, 2 ** 16 + 1, 10 ** 8]
+    for L in big1:
+        for R in big1:
+            if max(L, R) > 3:
+                out.append({"sub": "z1d-large", "L": L, "R": R})
     # signed states with LARGE coordinates (2^15 .. 2^64: Python integers are unbounded), every pairing class, d = 2, 3, 4
     for name, dims in (("szudzik", (2, 3, 4)), ("rosenbergstrong", (2, 3, 4)), ("cantor", (2,)), ("pepiskalmar", (2, 3)), ("hyperbolic", (2, 3))):
         for dim in dims:
@@ -1892,7 +1935,8 @@ def _sub_zd_large(sh, case):
     reported = set()
 
     def bad(failure, label, what, detail=None):
-        key = f"C14:zd-large:{name}:d{dim}:{failure}:coordinates-near-{label}"
+        beyond = ":beyond-1e8-points-per-axis" if label in ("2^31", "2^32", "2^62", "2^63", "2^64") else ""
+        key = f"C14:zd-large:{name}:d{dim}:{failure}:coordinates-near-{label}{beyond}"
         if key not in reported:
             reported.add(key)
             sh.violation(key, what, detail)
@@ -2040,3 +2084,50 @@ def _sub_zd_large(sh, case):
     if name == "rosenbergstrong" and dim == 3:
         P = PairingToZd(_pairings()[name], dimension=3, omit_zero=True)
         sh.sample({"sub": "zd-large", "state": [2 ** 21, 5, -2], "index": int(P.pair((2 ** 21, 5, -2)))})
+
+
+def _sub_z1d_large(sh, case):
+    """PairingToZ1d on intervals with up to 1e8 points on a side (the library's limit; not enumerable): for the indices in the
+    windows [0, 8), around the switch 2 min(L,R) and [n-8, n), and the states +-1, +-2, +-min(L,R) (+-1), the two ends and
+    their neighbours: project(i) is a state of the interval, pair(project(i)) == i, project(pair(s)) == s, pair(s) in [0, n),
+    no two probed indices / states share an image; numpy int64 arguments give the same.  Fresh object per direction."""
+    from rpylib.distribution.pairing import PairingToZ1d
+
+    L, R = case["L"], case["R"]
+    shape = ("L=0" if L == 0 else "R=0" if R == 0 else "L=R" if L == R else "L<R" if L < R else "L>R") + ":large"
+    for omit in (True, False):
+        n = L + R + (0 if omit else 1)
+        m = min(L, R)
+        idx = sorted({i for w in (range(0, 8), range(2 * m - 6, 2 * m + 8), range(n - 8, n)) for i in w if 0 <= i < n})
+        sts = sorted({v for c in (1, 2, m - 1, m, m + 1, m + 2, L - 1, L, R - 1, R) for v in (c, -c) if -L <= v <= R and (v != 0 or not omit)}
+                     | ({0} if not omit else set()))
+        for form, conv in (("python-int", int), ("numpy-int64", np.int64)):
+            p = PairingToZ1d((-L, R), omit_zero=omit)
+            q = PairingToZ1d((-L, R), omit_zero=omit)
+            try:
+                img = [int(p.project(conv(i))) for i in idx]
+                back = [int(p.pair(conv(v))) for v in img]
+                pre = [int(q.pair(conv(v))) for v in sts]
+                rt = [int(q.project(conv(i))) for i in pre]
+            except Exception as e:  # noqa
+                if form == "python-int":
+                    sh.violation(f"C14:z1d-large:raises:{shape}", f"[-{L},{R}], omit_zero={omit}: {e!r}", None)
+                else:
+                    sh.count("form-rejected-by-the-library:z1d-large:numpy-int64")
+                continue
+            sh.count("evaluations", 2 * len(idx) + 2 * len(sts))
+            bad = None
+            if any(not (-L <= v <= R) or (omit and v == 0) for v in img):
+                bad = ("projects-outside-the-interval", f"project({idx}) = {img}")
+            elif len(set(img)) != len(img):
+                bad = ("two-indices-share-a-state", f"project({idx}) = {img}")
+            elif back != idx:
+                bad = ("pair-does-not-invert-project", f"project({idx}) = {img}, pair of those = {back}")
+            elif any(not 0 <= i < n for i in pre) or len(set(pre)) != len(pre):
+                bad = ("pair-not-into-distinct-indices", f"pair({sts}) = {pre}, n = {n}")
+            elif rt != sts:
+                bad = ("project-does-not-invert-pair", f"pair({sts}) = {pre}, project of those = {rt}")
+            if bad:
+                sh.violation(f"C14:z1d-large:{bad[0]}:{shape}:{form}", f"[-{L},{R}], omit_zero={omit}: {bad[1]}", None)
+    sh.outcome((L, R))
+    sh.nontriv()
